@@ -375,6 +375,8 @@ def rep_case(draw):
             # a complex representation may have some real generators (the first is complex,
             # the later ones - in particular the one assigned last - real or complex)
             cx_i = cx and (gi == 0 or draw(st.booleans()))
+            if cx and ng >= 2 and gi == ng - 1:
+                cx_i = draw(st.sampled_from([False, False, True]))
             gens.append(draw(objs.s_matrix(n + 1, cx_i, maxfactor=2.0)))
     names = GEN_NAMES[:ng]
     alphabet = names + [g.upper() for g in names]
@@ -566,7 +568,7 @@ LAWS += [
         quick=200, thorough=1500, shards=(2, 8)),
     Law("derived_data_equivariant", derived_case(), body_derived, lambda l: True,
         quick=150, thorough=1500, shards=(1, 4)),
-    Law("rep_word_acts_as_matrix", rep_case(), body_rep, nt_rep, quick=150, thorough=1200,
+    Law("rep_word_acts_as_matrix", rep_case(), body_rep, nt_rep, quick=400, thorough=1200,
         shards=(2, 8)),
     Law("type_and_shape_preserved", type_case(), body_type,
         lambda l: "shape-changes-or-composite-T" in l, quick=200, thorough=2000,
